@@ -413,9 +413,13 @@ def gen_history(rng, nops):
     st = {}             # name -> ("data", uidx) | ("py", sig) | ("k", arity, body) | ("p", base, slots)
     wrappers = []       # (wid, name)
     body = 10
-    for _ in range(nops):
+    for step in range(nops):
         r = rng.random()
-        if r < 0.18:
+        if step == 0:
+            r = 0.0           # start with a definition …
+        elif step == 1:
+            r = 0.50          # … and a wrapper of it
+        if r < 0.20:
             n = rng.choice(NAMES)
             body += 1
             b = body if rng.random() > 0.06 else 900 + body
@@ -446,21 +450,21 @@ def gen_history(rng, nops):
             slots = [rng.choice(LIT_IDX) if m else None for m in mask]
             ops.append(["defp", n, base, slots])
             st[n] = ("p", base, slots)
-        elif r < 0.47:
-            n = rng.choice(DATA_NAMES if rng.random() < 0.8 else ["nope"])
+        elif r < 0.46:
+            n = rng.choice((list(st) or DATA_NAMES) if rng.random() < 0.8 else DATA_NAMES + ["nope"])
             ops.append(["del", n])
             st.pop(n, None)
         elif r < 0.60:
-            n = rng.choice(DATA_NAMES if rng.random() < 0.9 else ["nope"])
+            n = rng.choice((list(st) or DATA_NAMES) if rng.random() < 0.85 else DATA_NAMES + ["nope"])
             wid = len(wrappers) + 1
             ops.append(["get", n, wid])
             if n in st and st[n][0] != "data":
                 wrappers.append((wid, n, st[n]))
-        elif r < 0.66:
+        elif r < 0.64:
             cands = [k for k, v in st.items() if v[0] == "data"]
             if cands:
                 ops.append(["see", rng.choice(cands)])
-        elif r < 0.86:
+        elif r < 0.90:
             if not wrappers:
                 continue
             wid, n, cap = rng.choice(wrappers)
@@ -665,8 +669,12 @@ def run_history(ctx, drv, case):
                                         "klong[name](*args) must return what the Klong call name(a;b;c) returns")
                     if drv:
                         km = drv.ask(f"kcall name={n} args={it.toks(args)}")
-                        if km != kimpl and "unsupported" not in km:
+                        if "unsupported" in km:
+                            ctx.bump("outside-model")
+                            break
+                        if km != kimpl:
                             ctx.mismatch("Klong.C09.klongCall vs klong('name(a;b;c)')", sub, km, kimpl)
+                            return
             elif tgt[0] == "py":
                 # a stored callable read back: behaves like the callable itself
                 ar = sig_arity(tgt[2])
@@ -700,7 +708,10 @@ def run_history(ctx, drv, case):
                                     "a callable stored with klong[name]=f is called by name(a;b;c)")
         else:
             raise ValueError(kind)
-        if drv and model is not None and model != impl and "unsupported" not in model:
+        if drv and model is not None and "unsupported" in model:
+            ctx.bump("outside-model")       # nested projection / call of a data value: stop, the logs are out of step
+            break
+        if drv and model is not None and model != impl:
             ctx.mismatch(f"Klong.C09.handle({where}) vs klongpy", sub, model, impl)
             return
         ctx.bump("op:" + kind)
@@ -762,7 +773,7 @@ def run(ctx):
             for p in sorted(cdir.glob("*.json")):
                 run_case(ctx, drv, json.loads(p.read_text()))
                 ctx.bump("corpus")
-        reps = 1 if quick else 12
+        reps = 3 if quick else 30
         for sig in SIGS:
             for form in FORMS[sig_arity(sig)]:
                 for where in CONTEXTS:
@@ -770,7 +781,7 @@ def run(ctx):
                         c = run_pycall(ctx, drv, gen_pycall(ctx.rng, sig, form, where))
                         if ctx.rng.random() < 0.01:
                             ctx.sample(c)
-        nh = 120 if quick else 2500
+        nh = 500 if quick else 6000
         for h in range(nh):
             ops = gen_history(ctx.rng, ctx.rng.randrange(4, 16 if quick else 40))
             case = dict(kind="history", ops=ops)
